@@ -28,6 +28,7 @@ def acAgent : Acct := 3
 def acExecute : Acct := 4
 def acRelayer : Acct := 5
 def acForwarder : Acct := 10   -- a batching contract: one transaction, several `crossChainCall`s
+def acEmitter : Acct := 11     -- any OTHER contract: it can emit logs shaped like the packet contract's `PacketSent(bytes)`
 
 def upd1 {α} (f : Nat → α) (k : Nat) (v : α) : Nat → α := fun x => if x = k then v else f x
 def upd2 {α} (f : Nat → Nat → α) (a b : Nat) (v : α) : Nat → Nat → α :=
@@ -188,17 +189,28 @@ def send (cfg : Cfg) (self : ChainId) (c : Chain) (sender : Acct) (a : SendArgs)
 inductive Leg
   | approve (t : Token) (n : Nat)      -- token.approve(endpoint, n) by the forwarder
   | send (a : SendArgs)                -- endpoint.crossChainCall{value}(a) by the forwarder
+  | fakelog (p : Packet)               -- a call to a contract that emits LOG1(keccak("PacketSent(bytes)"), abi(p)): a look-alike
   deriving Repr
 
 /-- native coin a leg needs as `msg.value` -/
 def Leg.value : Leg → Nat
   | .approve _ _ => 0
   | .send a => (if a.token = 0 then a.amount else 0) + (if a.feeToken = 0 then a.feeAmount else 0)
+  | .fakelog _ => 0
+
+/-- a log of the receipt that has the `PacketSent(bytes)` topic: who emitted it, and the packet its data encodes -/
+abbrev SentLog := Acct × Packet
+
+/-- `Hooks.PostTxProcessing` considers ONLY the logs emitted by the packet contract itself
+(`log.Address != PacketContractAddress ⇒ continue`): a look-alike log of any other contract is not a packet. -/
+def hookPackets (logs : List SentLog) : List Packet :=
+  (logs.filter (fun l => l.1 == acPacket)).map (·.2)
 
 /-- EVM part of a batch: the frames run in order on ONE EVM state and every `crossChainCall` reads the same
 `getNextSequenceSend` (`seq0`): the keeper's hook runs only after the EVM has finished. `strict`: a failing frame
-reverts the whole transaction; otherwise only that frame's own changes are reverted. Returns the `PacketSent` events. -/
-def batchEvm (cfg : Cfg) (self : ChainId) (seq0 : ChainId → Nat) (strict : Bool) : Evm → List Leg → Option (Evm × List Packet)
+reverts the whole transaction; otherwise only that frame's own changes are reverted. Returns the logs of the receipt
+that carry the `PacketSent(bytes)` topic, each with its emitter. -/
+def batchEvm (cfg : Cfg) (self : ChainId) (seq0 : ChainId → Nat) (strict : Bool) : Evm → List Leg → Option (Evm × List SentLog)
   | e, [] => some (e, [])
   | e, .approve t n :: ls => batchEvm cfg self seq0 strict { e with allow := upd2 e.allow t acForwarder n } ls
   | e, .send a :: ls =>
@@ -207,7 +219,11 @@ def batchEvm (cfg : Cfg) (self : ChainId) (seq0 : ChainId → Nat) (strict : Boo
     | some (e1, p) =>
       match batchEvm cfg self seq0 strict e1 ls with
       | none => none
-      | some (e2, ps) => some (e2, p :: ps)
+      | some (e2, ps) => some (e2, (acPacket, p) :: ps)
+  | e, .fakelog p :: ls =>
+    match batchEvm cfg self seq0 strict e ls with
+    | none => none
+    | some (e2, ps) => some (e2, (acEmitter, p) :: ps)
 
 /-- Hook part of a batch: `Hooks.PostTxProcessing` handles EVERY `PacketSent` log of the receipt, in order, and fails
 on the first `SendPacket` that fails. -/
@@ -227,7 +243,7 @@ def batch (cfg : Cfg) (self : ChainId) (c : Chain) (sender : Acct) (strict : Boo
   | some e0 =>
     match batchEvm cfg self c.nextSeq strict (credit e0 0 acForwarder ((legs.map Leg.value).sum)) legs with
     | none => none
-    | some (e1, ps) => batchKeeper cfg { c with evm := e1 } ps
+    | some (e1, logs) => batchKeeper cfg { c with evm := e1 } (hookPackets logs)
 
 /-- The four things `CallPacket(ctx, "onRecvPacket", packet)` does. -/
 inductive Cb
